@@ -922,9 +922,16 @@ static Token *skip_excess_element(Token *tok) {
 }
 
 // string-initializer = string-literal
+
 static void string_initializer(Token **rest, Token *tok, Initializer *init) {
   if (init->is_flexible)
     *init = *new_initializer(array_of(init->ty->base, tok->ty->array_len), false);
+
+  // A string literal initializes the whole array: elements that an
+  // earlier, overridden initializer had set (C11 6.7.9p19) and that
+  // the string does not reach are zero (p21).
+  for (int i = 0; i < init->ty->array_len; i++)
+    init->children[i]->expr = NULL;
 
   int len = MIN(init->ty->array_len, tok->ty->array_len);
 
